@@ -51,6 +51,35 @@ def exec_retrieve(job):
     return rec
 
 
+def exec_retrieve_big(job):
+    """scale regime (130..400 nodes): distance_wei_floyd once, retrieve_shortest_path for the drawn
+    sources x ALL targets.  The record carries the raw data TLC needs: the input length matrix,
+    the reported SPL and hops matrices and the returned node sequences."""
+    import bct
+    mode = job["mode"]
+    n = len(job["K"])
+    rec = dict(fn=job["fn"], kind="retrieve_big", mode=mode, n=n, Lm=c03.lm_of(job["K"]),
+               raised="", malformed="", D=[], B=[], srcs=[s + 1 for s in job["srcs"]], paths=[])
+    A = rc.as_variant(c03.input_of(job["K"], mode), job.get("dtype", "float64"), job.get("layout", "C"))
+    try:
+        SPL, hops, Pmat = bct.distance_wei_floyd(A, transform=c03.TRANSFORM[mode])
+        if job.get("out_layout"):
+            hops, Pmat = np.asfortranarray(hops), np.asfortranarray(Pmat)
+        paths = [[bct.retrieve_shortest_path(s, t, hops, Pmat) for t in range(n)] for s in job["srcs"]]
+    except pool.CallTimeout:
+        raise
+    except Exception as e:
+        rec["raised"] = encode.exc_name(e)
+        return rec
+    try:
+        rec["D"] = c03.mat_len(SPL, mode)
+        rec["B"] = encode.mat_int(hops)
+        rec["paths"] = [[[encode.e_int(v) + 1 for v in np.asarray(p).ravel()] for p in row] for row in paths]
+    except ValueError as e:
+        rec["malformed"] = str(e)[:80]
+    return rec
+
+
 def exec_nav(job):
     import bct
     L = rc.as_variant(np.array(job["L"], dtype=float), job.get("dtype", "float64"), job.get("layout", "C"))
@@ -78,6 +107,8 @@ def exec_nav(job):
 
 
 def exec_job(job):
+    if job["kind"] == "retrieve_big":
+        return exec_retrieve_big(job)
     return exec_nav(job) if job["kind"] == "nav" else exec_retrieve(job)
 
 
@@ -242,6 +273,62 @@ def build_jobs(ctx):
         L = len_matrix(rng, n, edges, und, loops=rng.choice([0] * 9 + [1]))
         Dm = grid_dist(rng, n) if rng.random() < 0.7 else hop_dist(n, None)
         jobs.append(nav_variant(rng, L, Dm, rng.choice([0, 1, 2, n - 1, n, 3 * n]), src))
+    jobs += big_jobs(ctx, rng)
+    return jobs
+
+
+def is_forest(n, edges):
+    """input classification (not a verdict): no cycle among the undirected connections, so the
+    greedy walk cannot cycle and max_hops=None terminates"""
+    root = list(range(n))
+
+    def find(x):
+        while root[x] != x:
+            root[x] = root[root[x]]
+            x = root[x]
+        return x
+    for a, b in edges:
+        ra, rb = find(a), find(b)
+        if ra == rb:
+            return False
+        root[ra] = rb
+    return True
+
+
+def big_jobs(ctx, rng):
+    """scale regime: networks with more nodes than an int8 / uint8 index or hop counter holds
+    (130..300, thorough ..400): rings with chords, long chains, clique + long path, grids, cut into
+    two components or not, directed or not, natural or shuffled numbering; lengths {1,2,3}, a single
+    value, or a wide set whose path totals leave the exact range of float32; 'inv' weights down to
+    2^-20; argument dtypes incl. int8/int16/uint8 where distance_wei_floyd converts to float first.
+    retrieve_shortest_path for 6 drawn sources (always the first and the last node) x all targets;
+    navigation_wu on 130..160 nodes with the line metric of the nodes' positions (every greedy
+    navigation then makes progress: paths of up to n-1 hops)."""
+    q = ctx.quick
+    jobs = []
+    sizes = [(130, 160), (161, 256), (257, 300)] if q else [(130, 160), (161, 256), (257, 300), (301, 400)] * 4
+    for lo, hi in sizes:
+        name, n, edges, und = c03.big_support(rng, lo, hi)
+        mode = rng.choice(["len", "len", "inv", "bin"])
+        codes = rng.choice(c03.BIG_CODES[mode])
+        K = c03.code_matrix(rng, n, edges, und, mode, codes=codes)
+        dt, lay = c03.big_dtype(rng, mode, codes, c03.TRANSFORM[mode] is None)
+        tr = {"bin": "none", "len": "none", "inv": "inv"}[mode]
+        jobs.append(dict(fn="retrieve_shortest_path:" + tr, kind="retrieve_big", mode=mode, K=K,
+                         src_kind="big-" + name, srcs=sorted(set([0, n - 1] + rng.sample(range(n), 4))),
+                         dtype=c03.arg_dtype("distance_wei_floyd", dt, mode), layout=lay,
+                         out_layout=rng.randrange(2), big=1))
+    for k in range(1 if q else 4):
+        name, n, edges, _ = c03.big_support(rng, 130, 160, und=True, p_split=0.15)
+        tree = is_forest(n, edges)
+        L = len_matrix(rng, n, edges, True)
+        order = list(range(n))
+        rng.shuffle(order)                              # position of node i on the line
+        Dm = [[abs(order[i] - order[j]) for j in range(n)] for i in range(n)]
+        if "shuffled" not in name and rng.random() < 0.5:
+            Dm = hop_dist(n, None)                      # the numbering itself as the embedding
+        maxh = -1 if tree and rng.random() < 0.7 else rng.choice([n - 1, n, 2 * n])
+        jobs.append(dict(nav_variant(rng, L, Dm, maxh, "big-" + name), big=1))
     return jobs
 
 
@@ -251,16 +338,18 @@ def what(job, rec, clause):
     if job["kind"] == "nav":
         return "n=%d max_hops=%s source=%s %s Dm:%s/%s" % (len(job["L"]), job["maxh"], job.get("src_kind"), v,
                                                           job.get("dm_dtype", "float64"), job.get("dm_layout", "C"))
-    return "mode=%s n=%d source=%s %s" % (job["mode"], len(job["K"]), job.get("src_kind"), v)
+    return "mode=%s n=%d source=%s %s%s" % (job["mode"], len(job["K"]), job.get("src_kind"), v,
+                                           " sources=%s" % job["srcs"] if "srcs" in job else "")
 
 
 def run(ctx):
     ctx.mc("MC_Distance.tla", "MC_Distance_c12.cfg" if ctx.quick else "MC_Distance_c12_thorough.cfg")
     jobs = build_jobs(ctx)
-    recs = pool.run_jobs(__name__, jobs)
+    recs = c03.run_all(jobs, __name__)
     verdicts = ctx.validate(TLA, CFG, recs)
     ctx.judge(jobs, rc.tag_failures(ctx, jobs, recs, verdicts), verdicts, what)
     ctx.extra["argument_variants"] = rc.variant_counts(jobs)
+    ctx.extra["scale_regime_records"] = sum(1 for j in jobs if j.get("big"))
     seen = set()
     for j, r in zip(jobs, recs):
         if r.get("raised") or r.get("malformed") or r.get("timeout"):
@@ -282,16 +371,30 @@ def run(ctx):
                 "{0,1,2,n-1,n,3n}; a sample of all inputs again as another argument dtype (uint8/int32/int64/float32 "
                 "where the values allow it, drawn separately for L and D) and memory layout (Fortran, transposed, "
                 "window, strided), hops/Pmat also passed on Fortran-ordered; all choices drawn from the seeded RNG; "
+                "scale regime: %d networks of 130..%d nodes (rings with chords, long chains, clique + path, "
+                "grids; two components; directed; int8/int16/uint8 arguments; lengths up to 2^20) with "
+                "retrieve_shortest_path for 6 drawn sources x all targets, and navigation_wu on 130..160 nodes "
+                "with a line metric; "
                 "non-trivial = distinct input with a returned path of >= 3 "
                 "nodes (navigation: and at least one failed pair)"
                 % ("sampled digraphs on 4 / graphs on 5 nodes" if ctx.quick else
-                   "every digraph on 4 and graph on 5 nodes", 9 if ctx.quick else 12))
+                   "every digraph on 4 and graph on 5 nodes", 9 if ctx.quick else 12,
+                   sum(1 for j in jobs if j.get("big")), 300 if ctx.quick else 400))
     for kind in ("retrieve", "nav"):
         for j, r in zip(jobs, recs):
             if j["kind"] == kind and r["n"] == 4 and max([len(p) for row in r["paths"] for p in row] + [0]) >= 3:
                 ctx.add_sample("model-input:" + j["fn"], dict(job=j, record=r))
                 break
-    ctx.add_sample("random-input", dict(job=jobs[-1], record=recs[-1]))
+    last = max(k for k, j in enumerate(jobs) if not j.get("big"))
+    ctx.add_sample("random-input", dict(job=jobs[last], record=recs[last]))
+    for j, r in zip(jobs, recs):
+        if j.get("big"):                                # matrices of 130+ nodes: sizes only
+            ctx.add_sample("scale-regime-input", dict(fn=j["fn"], kind=j["kind"], n=r.get("n"),
+                                                      source=j.get("src_kind"), dtype=j.get("dtype"),
+                                                      layout=j.get("layout"), mode=j.get("mode", ""),
+                                                      max_hops=j.get("maxh", ""), sources=j.get("srcs", []),
+                                                      longest_path=max([len(p) for row in r.get("paths", [])
+                                                                        for p in row] + [0])), limit=10)
     ctx.assumptions += [
         "TLC evaluates the L0 definitions (IsWalk, PathLen, Dist) correctly",
         "lengths and nodal distances are small integers (weights dyadic for 'inv'/'log'; 'log' lengths divided "
@@ -299,15 +402,24 @@ def run(ctx):
         "only s != t is judged (retrieve_shortest_path returns [] for s == t by construction)",
         "navigation_wu is never called with max_hops=None on an input that may contain a cycle of >= 3 nodes "
         "(the code does not terminate there; termination is outside the statement)",
-        "a navigation counts as succeeded when its reported hop count is finite"]
+        "a navigation counts as succeeded when its reported hop count is finite",
+        "scale-regime records (more than 20 nodes) are judged by the same clauses with 'unreachable' decided by "
+        "breadth-first search over the input's connections (Distance!ReachFrom, cross-checked against Dist by "
+        "mc: FastOracleInv); retrieve_shortest_path is called there for 6 RNG-drawn sources x all targets; no "
+        "drift prediction for them"]
     return ctx.finish()
 
 
 def replay(ctx, rp):
     job = rp["job"]
-    recs = pool.run_jobs(__name__, [job])
+    recs = c03.run_all([job], __name__)
     verdicts = ctx.validate(TLA, CFG, recs)
     core.log("replay verdict:", verdicts[0])
+    if job.get("big"):                                  # 130+ nodes: the matrices stay in the replay file
+        core.log("  input:", what(job, recs[0], verdicts[0][0]))
+        core.log("  observed:", {k: recs[0][k] for k in ("raised", "malformed", "sr") if recs[0].get(k) not in ("", -1, None)})
+        ctx.judge([job], recs, verdicts, what)
+        return ctx.finish()
     core.log("  input:", {k: job[k] for k in ("mode", "K", "L", "Dm", "maxh") if k in job})
     core.log("  observed:", {k: recs[0][k] for k in ("D", "B", "P", "sr", "PLb", "PLw", "PLd", "paths", "raised", "malformed")
                              if recs[0].get(k) not in ([], "", -1, None)})
